@@ -265,6 +265,45 @@ def build_stream(rng, check, blocks):
     return c02lib.stream_header(check) + body + index + c02lib.stream_footer(check, len(index))
 
 
+BIG_DICT_BYTES = (40, 40, 39, 38, 37, 30, 24)
+
+
+def gen_bigdict_file(rng):
+    """A .xz file whose LZMA2 dictionary-size byte is at / near the format maximum (40 = 4 GiB - 1) and whose data uses
+    distances beyond 4 KiB / 64 KiB (valid), or whose byte is 41..255 (must be rejected with LZMA_OPTIONS_ERROR)."""
+    check = rng.choice((0, 1, 4))
+    if rng.random() < 0.25:
+        code = rng.choice((41, 42, 63, 64, 0x40 | 40, 0x80, 0xC0 | 12, 255))
+        comp, plain = lzmagen.gen_far_lzma2(rng, 1 << 20, 4096)
+        hdr = c02lib.block_header(None, None, [(LZMA2, bytes([code]))])
+        b = dict(bytes=hdr + comp + b"\0" * ((-len(comp)) % 4) + c02lib.check_value(check, plain), unpadded=len(hdr) + len(comp) + c02lib.CHECK_SIZES[check],
+                 uncompressed=len(plain))
+        data = build_stream(rng, check, [b])
+        return dict(file=data, plain=b"", expect=8, tag="xz:dict-byte-invalid", lone=[], nstreams=1)
+    code = rng.choice(BIG_DICT_BYTES)
+    reach = rng.choice((4096, 4097, 8192, 65536, 65537, 70000))
+    comp, plain = lzmagen.gen_far_lzma2(rng, c02lib.dict_of_code(code), reach)
+    cs = len(comp) if rng.random() < 0.5 else None
+    us = len(plain) if rng.random() < 0.5 else None
+    hdr = c02lib.block_header(cs, us, [(LZMA2, bytes([code]))])
+    blk = hdr + comp + b"\0" * ((-len(comp)) % 4) + c02lib.check_value(check, plain)
+    b = dict(bytes=blk, unpadded=len(hdr) + len(comp) + c02lib.CHECK_SIZES[check], uncompressed=len(plain))
+    data = build_stream(rng, check, [b])
+    return dict(file=data, plain=plain, expect=1, tag="xz:dict-byte-%d" % code, lone=[(check, blk, plain, True, False)], nstreams=1)
+
+
+def gen_lzma_alone(rng):
+    """A .lzma file with a dictionary size at the 32-bit limit whose data uses far distances -> (file, plain, tag)"""
+    ds = rng.choice((0xFFFFFFFF, 0xFFFFFFFF, 0xFFFFFFF1, 0xFFFFFFF0, 0xFFFFFFFE, 0x80000000, 0xC0000000, 1 << 30, 65536, 100000))
+    reach = rng.choice((4096, 8192, 65537))
+    if ds < (1 << 20):
+        reach = 4096
+    known = rng.random() < 0.5
+    (lc, lp, pb), stream, plain = lzmagen.gen_far_lzma1(rng, ds, reach, eopm=(not known) or rng.random() < 0.3)
+    hdr = bytes([(pb * 5 + lp) * 9 + lc]) + struct.pack("<I", ds) + struct.pack("<Q", len(plain) if known else (1 << 64) - 1)
+    return hdr + stream, plain, "lzma:dict=%#x" % ds
+
+
 def gen_file(rng):
     """-> dict(file, plain, expect_ret (with LZMA_CONCATENATED) or None, tag, blocks=[lone block cases])"""
     kind = rng.choice(("valid",) * 6 + ("cs-off", "cs-off", "us-off", "bad-filter", "reserved-check"))
